@@ -752,6 +752,25 @@ func (ev *Eval) call(x *ECall) SV {
 		k := ev.concretize(ev.eval(x.Args[1]), m.Ty.Key)
 		v := ev.concretize(ev.eval(x.Args[2]), m.Ty.Elem)
 		return SV{T: Store(m.T, k.T, v.T), Ty: m.Ty}
+	case "haskey", "mapval":
+		// haskey(m, k), mapval(m, k): membership and stored value of a Go map
+		m := ev.typed(ev.eval(x.Args[0]))
+		mt, ok := under(m.Ty.Go).(*types.Map)
+		if !ok {
+			sfail("%s() of a non-map", id.Name)
+		}
+		k := ev.concretize(ev.eval(x.Args[1]), goTy(c, mt.Key()))
+		ks := c.SortOf(mt.Key())
+		es := c.SortOf(mt.Elem())
+		name := sanitize(ks) + "_" + sanitize(es)
+		if id.Name == "haskey" {
+			ds := ArraySort(SInt, ArraySort(ks, SBool))
+			c.declHeap("MD_"+name, ds)
+			return SV{T: Select(Select(ev.view.Heap("MD_"+name, ds), m.T), k.T), Ty: boolTy}
+		}
+		vs := ArraySort(SInt, ArraySort(ks, es))
+		c.declHeap("MV_"+name, vs)
+		return SV{T: Select(Select(ev.view.Heap("MV_"+name, vs), m.T), k.T), Ty: goTy(c, mt.Elem())}
 	case "ref":
 		// ref(x): the reference identity of a pointer/interface value
 		v := ev.typed(ev.eval(x.Args[0]))
